@@ -134,7 +134,9 @@ def compare_cfg(name, feats, base, got, m):
         return None                       # documented exception
     if got.split(" ")[0] != base.split(" ")[0]:
         return "verdict differs under %s: %s vs default %s" % (name, got.split(" ")[0], base.split(" ")[0])
-    for f in ("tree", "print", "sorted", "order"):
+    if field(got, "eq") == "false":
+        return "a table rebuilt with its entries inserted in the opposite order is != the original under %s" % name
+    for f in ("tree", "print", "sorted", "order", "eq"):
         a, b = field(base, f), field(got, f)
         if a is None or b is None or a == "skip" or b == "skip":
             continue
@@ -175,6 +177,8 @@ def gen_cases(rng, tier):
                 if w and not why:
                     why = w
             # without preserve_order the iteration order of toml::Table is the sorted order
+            if field(base[i], "eq") == "false":
+                why = why or "default configuration: a table rebuilt in the opposite insertion order is != the original"
             if base[i].startswith("ok sorted=") and field(base[i], "sorted") != field(base[i], "order"):
                 why = why or "default configuration does not iterate toml::Table in sorted order"
         else:
